@@ -524,7 +524,7 @@ theorem conc_sequential_eq (v : ClockConc.Variant) (p : Params) (s : ClockConc.C
     ∃ k, k ≤ 4 ∧ ClockConc.run v p s (ClockConc.soloEvents s d k) =
       some { clk := (makeDeadline p s.clk d).1,
              gs := s.gs ++ [{ t0 := s.clk.now, d := d, pc := .done, ce := s.clk.clockEnd,
-                              e := (makeDeadline p s.clk d).2, s0 := s.stops }],
+                              e := (makeDeadline p s.clk d).2, s0 := s.stops, tMade := s.clk.now }],
              stops := s.stops } := by
   obtain ⟨k, hk, hit⟩ := Lemmas.ClockConc.iterG_makeDeadline v p s.clk (ClockConc.newG s d) rfl
   exact ⟨k, hk, Lemmas.ClockConc.run_solo v p s d ⟨hd0, hd1⟩ k _ hit⟩
@@ -568,7 +568,7 @@ example : ∃ s, ClockConc.run .old pConc ClockConc.CState.init (warmEvs 4) = so
 theorem old_makeDeadline_stale_deadline :
     ∃ s, ClockConc.run .old pConc ClockConc.CState.init (raceLockEvs 4) = some s ∧
       ClockConc.Reachable .old pConc s ∧
-      s.gs[1]? = some { t0 := 132000000, d := 100000000, pc := .done, ce := 0, e := 97, s0 := 1 } ∧
+      s.gs[1]? = some { t0 := 132000000, d := 100000000, pc := .done, ce := 0, e := 97, s0 := 1, tMade := 132000000 } ∧
       reached s.clk 97 = true ∧ s.clk.current = 125 ∧ s.clk.now - 132000000 = 0 ∧
       ¬ (100000000 - pConc.eps - 2097150 ≤ s.clk.now - 132000000) :=
   ⟨_, rfl, Lemmas.ClockConc.reachable_of_run .old pConc (raceLockEvs 4) _ _ .init rfl, by decide⟩
@@ -579,7 +579,7 @@ theorem old_makeDeadline_stale_deadline :
 theorem old_makeDeadline_stale_fastpath :
     ∃ s, ClockConc.run .old pConc ClockConc.CState.init (raceFastEvs 4) = some s ∧
       ClockConc.Reachable .old pConc s ∧
-      s.gs[1]? = some { t0 := 132000000, d := 100000000, pc := .done, ce := 3434306, e := 97, s0 := 1 } ∧
+      s.gs[1]? = some { t0 := 132000000, d := 100000000, pc := .done, ce := 3434306, e := 97, s0 := 1, tMade := 132000000 } ∧
       reached s.clk 97 = true ∧ s.clk.current = 125 ∧ s.clk.now - 132000000 = 0 :=
   ⟨_, rfl, Lemmas.ClockConc.reachable_of_run .old pConc (raceFastEvs 4) _ _ .init rfl, by decide⟩
 
@@ -587,19 +587,19 @@ theorem old_makeDeadline_stale_fastpath :
     from the refreshed time, 221 = 125 + 96, and is not reached; in the second schedule B's second
     read sees `current = 125`, `221 > clockEnd₁ = 0` sends it to the mutex, two more steps finish it -/
 example : ∃ s, ClockConc.run .new pConc ClockConc.CState.init (raceLockEvs 3) = some s ∧
-    s.gs[1]? = some { t0 := 132000000, d := 100000000, pc := .done, ce := 0, e := 221, s0 := 1 } ∧
+    s.gs[1]? = some { t0 := 132000000, d := 100000000, pc := .done, ce := 0, e := 221, s0 := 1, tMade := 132000000 } ∧
     reached s.clk 221 = false :=
   ⟨_, rfl, by decide⟩
 example : ∃ s, ClockConc.run .new pConc ClockConc.CState.init (raceFastEvs 3) = some s ∧
-    s.gs[1]? = some { t0 := 132000000, d := 100000000, pc := .needLock, ce := 0, e := 221, s0 := 1 } :=
+    s.gs[1]? = some { t0 := 132000000, d := 100000000, pc := .needLock, ce := 0, e := 221, s0 := 1, tMade := 132000000 } :=
   ⟨_, rfl, by decide⟩
 example : ∃ s, ClockConc.run .new pConc ClockConc.CState.init (raceFastEvs 3 ++ [.stepG 1]) = some s ∧
-    s.gs[1]? = some { t0 := 132000000, d := 100000000, pc := .done, ce := 0, e := 221, s0 := 1 } ∧
+    s.gs[1]? = some { t0 := 132000000, d := 100000000, pc := .done, ce := 0, e := 221, s0 := 1, tMade := 132000000 } ∧
     reached s.clk 221 = false ∧ s.clk.clockEnd = 3434306 :=
   ⟨_, rfl, by decide⟩
 /-- … and so does 648a49f on these two schedules (four steps per call) -/
 example : ∃ s, ClockConc.run .split pConc ClockConc.CState.init (raceLockEvs 4) = some s ∧
-    s.gs[1]? = some { t0 := 132000000, d := 100000000, pc := .done, ce := 0, e := 221, s0 := 1 } :=
+    s.gs[1]? = some { t0 := 132000000, d := 100000000, pc := .done, ce := 0, e := 221, s0 := 1, tMade := 132000000 } :=
   ⟨_, rfl, by decide⟩
 
 /-- A (index 0, 100 ms) at t = 132 ms: both reads and the first locked section (refresh: `current` =
@@ -621,7 +621,7 @@ def splitEvs : List ClockConc.Event :=
 theorem split_sections_stale_after_restart :
     ∃ s, ClockConc.run .split pConc ClockConc.CState.init splitEvs = some s ∧
       ClockConc.Reachable .split pConc s ∧
-      s.gs[1]? = some { t0 := 182000000, d := 100000000, pc := .done, ce := 1174, e := 221, s0 := 1 } ∧
+      s.gs[1]? = some { t0 := 182000000, d := 100000000, pc := .done, ce := 1174, e := 221, s0 := 1, tMade := 182000000 } ∧
       reached s.clk 221 = true ∧ s.clk.now - 182000000 = 50000000 ∧
       ¬ (100000000 - pConc.eps - 2097150 ≤ s.clk.now - 182000000) :=
   ⟨_, rfl, Lemmas.ClockConc.reachable_of_run .split pConc splitEvs _ _ .init rfl, by decide⟩
@@ -642,7 +642,7 @@ example : ClockConc.run .new pConc ClockConc.CState.init
 example : ∃ s, ClockConc.run .new pConc ClockConc.CState.init
     (warmEvs 3 ++ [.begin 100000000, .stepG 0, .stepG 0, .stepG 0] ++ List.replicate 50 (.tick 1000000) ++
       [.begin 100000000, .stepG 1, .stepG 1] ++ List.replicate 101 (.tick 1000000)) = some s ∧
-    s.gs[1]? = some { t0 := 182000000, d := 100000000, pc := .done, ce := 1174, e := 269, s0 := 1 } ∧
+    s.gs[1]? = some { t0 := 182000000, d := 100000000, pc := .done, ce := 1174, e := 269, s0 := 1, tMade := 182000000 } ∧
     reached s.clk 269 = true ∧ s.clk.now - 182000000 = 101000000 :=
   ⟨_, rfl, by decide⟩
 
@@ -657,8 +657,8 @@ def twoCallsEvs : List ClockConc.Event :=
 
 example : ∃ s, ClockConc.run .new pConc ClockConc.CState.init twoCallsEvs = some s ∧
     ClockConc.Reachable .new pConc s ∧
-    s.gs = [{ t0 := 0, d := 100000000, pc := .done, ce := 0, e := 96, s0 := 0 },
-            { t0 := 3000000, d := 100000000, pc := .done, ce := 1049, e := 98, s0 := 0 }] ∧
+    s.gs = [{ t0 := 0, d := 100000000, pc := .done, ce := 0, e := 96, s0 := 0, tMade := 0 },
+            { t0 := 3000000, d := 100000000, pc := .done, ce := 1049, e := 98, s0 := 0, tMade := 3000000 }] ∧
     reached s.clk 96 = true ∧ 100000000 - pConc.eps - 2097150 ≤ s.clk.now - 0 ∧ s.clk.now = 101000000 ∧
     reached s.clk 98 = false ∧ 98 ≤ s.clk.clockEnd ∧ s.clk.running = true ∧ s.stops = 0 :=
   ⟨_, rfl, Lemmas.ClockConc.reachable_of_run .new pConc twoCallsEvs _ _ .init rfl, by decide⟩
@@ -667,7 +667,7 @@ example : ∃ s, ClockConc.run .new pConc ClockConc.CState.init twoCallsEvs = so
 example : ∀ v ∈ [ClockConc.Variant.old, .split, .new], ∃ s k s', k ≤ 4 ∧
     ClockConc.run .new pConc ClockConc.CState.init (warmEvs 3) = some s ∧
     ClockConc.run v pConc s (ClockConc.soloEvents s 100000000 k) = some s' ∧
-    s'.clk.current = 125 ∧ s'.gs = [{ t0 := 132000000, d := 100000000, pc := .done, ce := 0, e := 221, s0 := 1 }] ∧
+    s'.clk.current = 125 ∧ s'.gs = [{ t0 := 132000000, d := 100000000, pc := .done, ce := 0, e := 221, s0 := 1, tMade := 132000000 }] ∧
     (makeDeadline pConc s.clk 100000000).2 = 221 := by
   intro v hv
   simp only [List.mem_cons, List.mem_nil_iff, or_false] at hv
